@@ -390,6 +390,8 @@ pub struct Run {
     pub any_part: bool,
     pub started: Instant,
     pub replay_only: bool,
+    /// shrink budget for proptest parts (expensive cases such as socket sessions lower it)
+    pub max_shrink_iters: u32,
 }
 
 impl Run {
@@ -412,6 +414,7 @@ impl Run {
             any_part: false,
             started: Instant::now(),
             replay_only: false,
+            max_shrink_iters: 4096,
         }
     }
 
@@ -538,6 +541,7 @@ impl Run {
         let results: Mutex<Vec<(Local, Option<(Fail, Value)>)>> = Mutex::new(vec![]);
         let known: Vec<String> = self.known.iter().map(|k| k.sig.clone()).collect();
         let seed = self.seed;
+        let shrink_iters = self.max_shrink_iters;
         std::thread::scope(|sc| {
             for w in 0..threads {
                 let stop = &stop;
@@ -550,7 +554,7 @@ impl Run {
                         cases: per as u32,
                         failure_persistence: None,
                         rng_seed: RngSeed::Fixed(h.finish()),
-                        max_shrink_iters: 4096,
+                        max_shrink_iters: shrink_iters,
                         max_global_rejects: 65536,
                         ..Config::default()
                     };
